@@ -40,7 +40,14 @@ class DW:
     def read_csv(self, path, **kw):
         if path not in self.files:
             raise PyRaise("FileNotFoundError", None, str(path))
-        return PD.read_csv_text(*self.files[path])
+        bad = sorted(k for k in kw if k not in ("skipinitialspace",))
+        if bad:
+            raise AnalysisAbort(f"pandas.read_csv keyword(s) {bad} are not modelled")
+        header, rows = self.files[path]
+        if kw.get("skipinitialspace"):      # blanks after the delimiter are dropped: " a1" is read as "a1"
+            header = [h.lstrip() if isinstance(h, str) else h for h in header]
+            rows = [[c.lstrip() if isinstance(c, str) else c for c in r] for r in rows]
+        return PD.read_csv_text(header, rows)
 
     def dim(self, l):
         if l not in self._dims:
@@ -503,6 +510,50 @@ def expected_outcome(fault, note, removed, nan_keys, allow_missing, allow_extra)
     if (removed or nan_keys) and not allow_missing:
         return "raise"
     return "ok"
+
+
+def case_reader_faults(prog, letters):
+    """the CSV parameter reader on a file of its own: a clean file is read back exactly; a label that differs from an item only by a
+    blank after the comma (", a1") is NOT that item - refused by default, ignored (and the entry zero) with both flags"""
+    out = []
+    names = [DIMS[l][0] for l in letters]
+    for fault in ("none", "label-with-leading-blank"):
+        for am, ae in ((False, False), (True, True)):
+            dw = DW(prog)
+            it = dw.it
+            arr = dw.array(letters, zeros=False)
+            src = dw.entries(arr)
+            df = long_frame(dw, arr, letters)
+            rows = [list(r) for r in df.rows]
+            cols = list(df.columns.labels)
+            removed = []
+            if fault != "none":
+                j = next((cols.index(n) for n, l in zip(names, letters) if isinstance(DIMS[l][1][0], str)), None)
+                if j is None:
+                    continue
+                k = len(rows) - 1
+                removed.append(tuple(rows[k][cols.index(n)] for n in names))
+                rows[k][j] = " " + rows[k][j]
+            dw.files["p.csv"] = (cols, rows)
+            inp = {"dims": list(letters), "reader": "CSVParameterReader", "fault": fault, "allow_missing_values": am, "allow_extra_values": ae}
+
+            def go():
+                rd = it.construct(prog.cls("CSVParameterReader"), [], dict(parameter_files={"p": "p.csv"}, allow_missing_values=am, allow_extra_values=ae))
+                return it.call_method(rd, "read_parameter_values", "p", dw.dimset(letters))
+            kind, res = run_guarded(go)
+            qual = "CSVParameterReader.read_parameter_values"
+            if fault != "none" and not (am and ae):
+                out.append((inp, kind == "raise", "a label with a blank in front of it (not an item of the dimension) was accepted by the CSV reader", qual))
+                continue
+            want = dict(src)
+            for k_ in removed:
+                want[k_] = rat(0)
+            if kind != "ok":
+                out.append((inp, False, f"a file that must be accepted was refused: {getattr(res, 'exc_name', kind)} {getattr(res, 'msg', res)!s:.160}", qual))
+            else:
+                bad = same_array(dw, res, want, letters)
+                out.append((inp, bad is None, f"CSV reader, {fault}: {bad}", qual))
+    return out
 
 
 def case_faults(prog, letters, target="from_df"):
